@@ -2,12 +2,14 @@ package checks
 
 import (
 	"fmt"
+	"net/netip"
 	"testing/synctest"
 	"time"
 
 	"github.com/pion/ice/v4"
 
 	"verif/sim/core"
+	"verif/sim/rig"
 	"verif/sim/tape"
 )
 
@@ -126,10 +128,38 @@ func c09Sub(c *core.Ctx, t *tape.Tape, cfg gCfg, faults bool, cut int, kind stri
 			}
 			c.Probe("cut-close")
 		case "failed":
+			// the candidates listed now are removed by the transition to Failed: their sockets are closed with
+			// them (candidates that the gatherers add after the failure are another matter)
+			before := map[netip.AddrPort]string{}
+			g.api(func() {
+				for _, lc := range g.ag.LocalCands() {
+					before[rig.CandAP(lc)] = lc.Type().String() + " " + rig.CandAddr(lc)
+					if ra := lc.RelatedAddress(); ra != nil {
+						if ip, err := netip.ParseAddr(ra.Address); err == nil {
+							before[netip.AddrPortFrom(ip, uint16(ra.Port))] = lc.Type().String() + " " + rig.CandAddr(lc) + " (base)"
+						}
+					}
+				}
+			})
 			time.Sleep(700 * time.Millisecond)
 			synctest.Wait()
 			if g.ag.LastState() == ice.ConnectionStateFailed {
 				c.Probe("cut-failed")
+				still := map[netip.AddrPort]bool{}
+				g.api(func() {
+					for _, lc := range g.ag.LocalCands() {
+						still[rig.CandAP(lc)] = true
+					}
+				})
+				for _, so := range g.agentSockets(true) {
+					if what, ok := before[so.Local]; ok && !still[so.Local] {
+						c.Failf("C09/socket-open-after-failed", "%s: the agent entered Failed; the socket %s of its candidate %s, which that transition removed, is still open", where, so.Local, what)
+						return
+					}
+				}
+				if len(before) > 0 {
+					c.Probe("candidates-removed-by-failed")
+				}
 			}
 		}
 	}
